@@ -23,7 +23,9 @@ LiteralTypes == {Lit(<<"i0", "i1">>), Lit(<<"bF", "bT">>), Lit(<<"i1">>), Lit(<<
                  \* Enum and bytes members next to members of the bool / int look-alike group and to plain ones
                  Lit(<<"e_a">>), Lit(<<"e_a", "e_b">>), Lit(<<"i0", "e_a">>), Lit(<<"i1", "e_b">>), Lit(<<"bT", "e_a", "e_b">>),
                  Lit(<<"s_a", "e_a">>), Lit(<<"i2", "e_b">>), Lit(<<"by_a">>), Lit(<<"i0", "by_a">>), Lit(<<"s_a", "by_a", "e_b">>),
-                 Lit(<<"bF", "by_a", "e_a">>)}
+                 Lit(<<"bF", "by_a", "e_a">>),
+                 \* IntEnum members next to plain ints: the datum of a plain member must not come back as an unlisted IntEnum member
+                 Lit(<<"i1", "ie_b">>), Lit(<<"i2", "ie_a">>), Lit(<<"ie_a", "ie_b", "s_a">>)}
 UnionTypes == {Opt(Sc("int")), Opt(Sc("str")), Opt(Sc("Decimal")), Opt(Sc("bool")),
                Un(<<Sc("int"), Sc("str")>>), Un(<<Sc("str"), Sc("int")>>), Un(<<Sc("bool"), Sc("int")>>),
                Un(<<Sc("int"), Sc("float")>>), Un(<<Sc("int"), Sc("str"), Sc("None")>>),
